@@ -399,22 +399,46 @@ def replay_weightnorm(model):
 
 
 def ob_planar(dim=2):
-    """planar layers stay invertible: w . u_hat > -1 for every raw (w != 0, u)"""
+    """planar layers stay invertible: 1 + s * (w . u_hat) > 0 for both slopes s of the activation (1 and negative_slope; tanh: s in (0, 1]),
+    for every raw u and every w != 0 - also for a leaky-relu slope above 1, which the documentation allows ('a positive float')"""
     jax, jnp, eqx, jx, Ctx, Interp, set_path, check, split, toreal, toz, symarr, trace, leaves_of, f64 = _env()
     from flowjax.bijections.planar import _UnconditionalPlanar
-    w, u = symarr("w", (dim,)), symarr("u", (dim,))
-    ctx = Ctx()
-    I = Interp(ctx)
-    assume = [z3.Or(*[v != 0 for v in w])]
-    set_path(assume, ctx.facts)
-    uh = I.run(trace(lambda w_, u_: _UnconditionalPlanar(w_, u_, jnp.array(0.0), 0.1).get_act_scale(), jnp.ones(dim), jnp.ones(dim)), w, u)[0]
-    set_path(None)
-    dot = Fraction(0)
-    for i in range(dim):
-        dot = jx.add(dot, jx.mul(w[i], uh[i]))
-    t, o, i_ = split(dot)
-    name = f"C11/planar (d={dim}): w . u_hat > -1 for every raw u and every w != 0"
-    return [_finish(_prove(name, ctx, assume, [("defined", toz(jx.band(o, i_ == 0))), ("w.uhat>-1", toreal(t) > -1)], check), replay_generic, what="planar")]
+    out = []
+    for slope in (None, 0.1, 1.0, 2.0, 4.0, 2.5):
+        w, u = symarr("w", (dim,)), symarr("u", (dim,))
+        ctx = Ctx()
+        I = Interp(ctx)
+        assume = [z3.Or(*[v != 0 for v in w])]
+        set_path(assume, ctx.facts)
+        uh = I.run(trace(lambda w_, u_: _UnconditionalPlanar(w_, u_, jnp.array(0.0), slope).get_act_scale(), jnp.ones(dim), jnp.ones(dim)), w, u)[0]
+        set_path(None)
+        dot = Fraction(0)
+        for i in range(dim):
+            dot = jx.add(dot, jx.mul(w[i], uh[i]))
+        t, o, i_ = split(dot)
+        smax = 1 if slope is None else max(1, slope)
+        name = f"C11/planar (d={dim}, {'tanh' if slope is None else 'leaky_relu negative_slope=' + str(slope)}): 1 + s * (w . u_hat) > 0 for every slope s of the activation, every raw u and every w != 0"
+        # strict when 1/negative_slope is exact in binary; otherwise up to the rounding of the float literal -1/negative_slope (1e-12)
+        exact = Fraction(1) / Fraction(smax) == Fraction(float(1 / smax))
+        lo = z3.RealVal(0) if exact else z3.RealVal("-1/1000000000000")
+        goals = [("defined", toz(jx.band(o, i_ == 0))), ("1+w.uhat>0", 1 + toreal(t) > 0), (f"1+{smax}*w.uhat>{'0' if exact else '-1e-12'}", 1 + z3.RealVal(str(Fraction(smax))) * toreal(t) > lo)]
+        out.append(_finish(_prove(name, ctx, assume, goals, check), replay_planar, slope=slope, dim=dim))
+    return out
+
+
+def replay_planar(model, slope=None, dim=2):
+    """monotonicity of the real layer along w at the model's parameters: 1 + s * w.u_hat for both slopes"""
+    import jax.numpy as jnp
+    from flowjax.bijections.planar import _UnconditionalPlanar
+    w = jnp.asarray([float(model.get(f"w_{i}", 0.0)) for i in range(dim)])
+    u = jnp.asarray([float(model.get(f"u_{i}", 0.0)) for i in range(dim)])
+    if not bool(jnp.any(w != 0)):
+        return False, "w == 0 (outside the assumption)"
+    b = _UnconditionalPlanar(w, u, jnp.array(0.0), slope)
+    wu = float(b.get_act_scale() @ w)
+    smax = 1 if slope is None else max(1.0, slope)
+    bad = not (1 + wu > 0 and 1 + smax * wu > 0)
+    return bad, f"w={w.tolist()} u={u.tolist()} negative_slope={slope}: w.u_hat={wu}, 1 + {smax} * w.u_hat = {1 + smax * wu}"
 
 
 def ob_roundtrips():
